@@ -696,11 +696,11 @@ func refPackagist(a, b string) (int, bool) {
 }
 
 // ---------------------------------------------------------------------------------------------
-// Alpine apk: N.N[_sufN][-rN] with two numeric components without leading zeros, suffix always
-// numbered. alpha < beta < pre < rc < (none) < cvs < svn < git < hg < p.
-// Pairs where exactly one side has -rN are left out.
+// Alpine apk: N[.N[.N]][_sufN][-rN] with the SAME number of numeric components on both sides,
+// no leading zeros, suffix always numbered. alpha < beta < pre < rc < (none) < cvs < svn < git < hg < p.
+// Pairs where exactly one side has -rN, or with different component counts, are left out.
 
-var alpineCanon = regexp.MustCompile(`^(\d+)\.(\d+)(?:_(alpha|beta|pre|rc|cvs|svn|git|hg|p)(\d+))?(?:-r(\d+))?$`)
+var alpineCanon = regexp.MustCompile(`^(\d+(?:\.\d+){0,2})(?:_(alpha|beta|pre|rc|cvs|svn|git|hg|p)(\d+))?(?:-r(\d+))?$`)
 
 var alpineRank = map[string]int{"alpha": 0, "beta": 1, "pre": 2, "rc": 3, "": 4, "cvs": 5, "svn": 6, "git": 7, "hg": 8, "p": 9}
 
@@ -710,29 +710,32 @@ func refAlpine(a, b string) (int, bool) {
 	if x == nil || y == nil {
 		return 0, false
 	}
-	if !noLeadingZero(x[1]) || !noLeadingZero(x[2]) || !noLeadingZero(y[1]) || !noLeadingZero(y[2]) {
+	xn, yn := strings.Split(x[1], "."), strings.Split(y[1], ".")
+	if len(xn) != len(yn) {
 		return 0, false
 	}
-	if (x[5] == "") != (y[5] == "") {
+	for _, c := range append(append([]string{}, xn...), yn...) {
+		if !noLeadingZero(c) {
+			return 0, false
+		}
+	}
+	if (x[4] == "") != (y[4] == "") {
 		return 0, false
 	}
-	if d := numCmp(x[1], y[1]); d != 0 {
+	if d := numsCmp(xn, yn); d != 0 {
 		return d, true
 	}
-	if d := numCmp(x[2], y[2]); d != 0 {
-		return d, true
-	}
-	xr, yr := alpineRank[x[3]], alpineRank[y[3]]
+	xr, yr := alpineRank[x[2]], alpineRank[y[2]]
 	if xr != yr {
 		return sgn(xr - yr), true
 	}
-	if x[3] != "" {
-		if d := numCmp(x[4], y[4]); d != 0 {
+	if x[2] != "" {
+		if d := numCmp(x[3], y[3]); d != 0 {
 			return d, true
 		}
 	}
-	if x[5] != "" {
-		return numCmp(x[5], y[5]), true
+	if x[4] != "" {
+		return numCmp(x[4], y[4]), true
 	}
 	return 0, true
 }
